@@ -335,25 +335,18 @@ impl MutableArchive {
         let is_internal_update = archive_name == "(listfile)" || archive_name == "(attributes)";
 
         // Check if file exists and if we should replace it
-        let existing_block_index =
-            if let Some((hash_index, entry)) = self.find_file_entry(&archive_name)? {
-                if !options.replace_existing {
-                    return Err(Error::FileExists(archive_name));
-                }
-                // Mark the existing entry as deleted for now
-                if let Some(hash_table) = &mut self.hash_table {
-                    hash_table.get_mut(hash_index).unwrap().block_index = HashEntry::EMPTY_DELETED;
-                }
+        let existing_entry = self.find_file_entry(&archive_name)?;
+        if existing_entry.is_some() && !options.replace_existing {
+            return Err(Error::FileExists(archive_name));
+        }
 
-                // If this is a special file update, remember its block index for reuse
-                if is_internal_update {
-                    Some(entry.block_index)
-                } else {
-                    None
-                }
-            } else {
-                None
-            };
+        // If this is a special file update, remember its block index for reuse.
+        // The existing hash entry is only released further down, once every
+        // fallible step has succeeded, so a failed replace keeps the old file.
+        let existing_block_index = match existing_entry {
+            Some((_, entry)) if is_internal_update => Some(entry.block_index),
+            _ => None,
+        };
 
         // Determine block index - reuse for special files, allocate new for regular files
         let block_index = if let Some(existing_idx) = existing_block_index {
@@ -414,6 +407,13 @@ impl MutableArchive {
 
                 *block_table = new_table;
             }
+        }
+
+        // Release the replaced entry (if any) now that the new data is in place
+        if let Some((hash_index, _)) = existing_entry
+            && let Some(hash_table) = &mut self.hash_table
+        {
+            hash_table.get_mut(hash_index).unwrap().block_index = HashEntry::EMPTY_DELETED;
         }
 
         // Add to hash table
